@@ -408,10 +408,18 @@ Definition agree_node (name : str) (x : fin) (members : node) (o : res (option (
          end
   end.
 
-(* add_file(blob, name): the file name is written first (create "Data", delete the member called like the file), so a refused
-   name wins over a refused content (not bytes: FilenameData.values setter; empty: np.void) *)
+(* add_file(blob, name), in the order things happen in write_file_name_data: the file name is written into "Data" (NUL:
+   ValueError), the member called like the file is deleted ("." : KeyError), np.void(blob) is built (empty: ValueError), the
+   dataset called like the file is created ("": TypeError).  FNotBytes stands for "add_file(b'seed', name) then
+   .values = <not bytes>": the seed write comes first, then the setter's ValueError. *)
 Definition blob_add (name : str) (x : fin) : res bytes :=
-  match name_refusal name with Some e => Err e | None => blob_store x end.
+  if has_nul name then Err ValueErr
+  else if lN_eqb name [46%N] then Err KeyErr
+  else match x with
+       | FBytes [] => Err ValueErr
+       | FBytes b => match name with [] => Err TypeErr | _ => Ok b end
+       | FNotBytes => match name with [] => Err TypeErr | _ => Err ValueErr end
+       end.
 
 Definition agree_blob_refused (name : str) (x : fin) (e : err) : bool :=
   match blob_add name x with Err e' => err_eqb e e' | Ok _ => false end.
